@@ -122,7 +122,10 @@ def line_to_circle(line_point, line_direction, center, radius, normal):
 
     m0_squared = np.dot(
         line_direction_cross_normal, line_direction_cross_normal)
-    if m0_squared > 0.0:
+    # Line direction and normal are unit vectors, so m0_squared is the squared
+    # sine of the angle between them. For parallel vectors in a general
+    # orientation it is not exactly zero because of rounding errors.
+    if m0_squared > 1e-28:
         closest_point_line, closest_point_circle = _case_line_and_normal_not_parallel(
             line_point, line_direction, center, radius, normal,
             m0_squared, line_direction_cross_normal,
